@@ -103,7 +103,9 @@ pub fn run(c: &Case, rep: &mut Report) {
                     want.push_str(" -");
                     continue;
                 }
-                match (0..m.vals.len()).find(|k| !m.dead[*k] && m.vals[*k] == v && !(coll == "funcs" && renamed.contains(k))) {
+                // imports: values 2k (global) and 2k+1 (function) share a name; the lookup by name finds the first live one
+                let same = |a: u32, b: u32| if coll == "imports" { a / 2 == b / 2 } else { a == b };
+                match (0..m.vals.len()).find(|k| !m.dead[*k] && same(m.vals[*k], v) && !(coll == "funcs" && renamed.contains(k))) {
                     Some(k) => want.push_str(&format!(" {}", k)),
                     None => want.push_str(" -"),
                 }
